@@ -923,6 +923,13 @@ impl World {
                 return Ok(());
             }
             Err(e) => {
+                // a balanced or keyed send picks its own partition: when it fails because that partition does not exist,
+                // the routing rule (C17: the chosen partition always exists) is what broke
+                if (balanced || key.is_some()) && matches!(e, IggyError::PartitionNotFound(..)) && !self.parts.is_empty() {
+                    self.eval("C17:exists");
+                    let w = json!({"send_error": e.to_string(), "balanced": balanced, "key": key, "partitions": self.parts.len(), "n": n});
+                    return Err(viol("C17", "exists", if balanced { "balanced-chose-missing-partition" } else { "key-chose-missing-partition" }, self.witness(w)));
+                }
                 let w = json!({"send_error": e.to_string(), "partition": part, "n": n});
                 return Err(viol("C06", "valid-refused", "send", self.witness(w)));
             }
